@@ -281,7 +281,7 @@ class Gen:
         tpl = self.rng.randrange(len(TEMPLATES[name]))
         out = [name.encode() if self.rng.random() < 0.9 else name.upper().encode()]
         self.expand(ast_of(name, tpl), out)
-        return out
+        return sanitize(out)
 
     def mutate(self, fields):
         """malformed stream: drop / duplicate / replace one argument, change case, inject NUL"""
@@ -303,4 +303,22 @@ class Gen:
             f[i] = f[i] + b'\x00zz'
         else:
             f[0] = r.choice([f[0].swapcase(), f[0] + b'x', b'_' + f[0], b'nosuch', b'', b'\xff\xfe', f[0] + b'\r\n'])
-        return f
+        return sanitize(f)
+
+
+FLOAT_TIME = {b'expire', b'pexpire', b'expireat', b'pexpireat', b'restore'}
+
+
+def sanitize(fields):
+    """Deadlines are Python floats in the code: EXPIRE-family / RESTORE ttl arguments beyond 10^12 are outside the
+    modelled band (the float rounding of such deadlines is not modelled; Redis 6.2+ refuses them, DESIGN F17)."""
+    if fields and fields[0].lower() in FLOAT_TIME:
+        out = list(fields)
+        for i in range(1, len(out)):
+            try:
+                if abs(int(out[i])) > 10 ** 12 and out[i] == str(int(out[i])).encode():
+                    out[i] = b'1000000'
+            except ValueError:
+                pass
+        return out
+    return fields
